@@ -306,6 +306,28 @@ def p_center(s):
     return True, f"center={got!r}"
 
 
+def p_np_index(i, n):
+    """an integer index given as a numpy integer (what np.argwhere / clip_tiles hand around) means the same as the
+    Python int: normalisation, shape, fullness, centre, tile lookup"""
+    from odc.geo import roi as R
+    bad = []
+    for T in (np.int64, np.int32, np.uint8 if i >= 0 else np.int16):
+        k = T(i)
+        try:
+            if (R.roi_normalise(k, n) != R.roi_normalise(i, n) or R.roi_shape((k, slice(0, n))) != R.roi_shape((i, slice(0, n)))
+                    or R.roi_is_full(k, n) != R.roi_is_full(i, n) or R.roi_is_empty((k,)) != R.roi_is_empty((i,))):
+                bad.append(f"{T.__name__}: differs from the Python int")
+            if i >= 0:
+                if R.roi_center(k) != R.roi_center(i):
+                    bad.append(f"{T.__name__}: centre differs")
+                t = R.Tiles((3 * n, 2 * n), (3, 2))
+                if t[k, k] != t[i, i] or R.VariableSizedTiles(t.chunks)[k, k] != t[i, i]:
+                    bad.append(f"{T.__name__}: tile lookup differs")
+        except Exception as e:  # noqa: BLE001
+            bad.append(f"{T.__name__}: raised {type(e).__name__}: {e}")
+    return not bad, "; ".join(bad) or "same as the Python int"
+
+
 def p_pad(s, pad, n):
     """any int / slice index (negative, open-ended): the padded region is the selection grown by pad, clamped"""
     from odc.geo.roi import roi_pad
@@ -369,7 +391,7 @@ def p_points(pts, ny, nx, padding, align):
 
 PREDICATES = {"norm": p_norm, "intersect3": p_intersect3, "queries": p_queries, "pad": p_pad,
               "scale": p_scale, "points": p_points, "full_nd": p_full_nd,
-              "empty_nd": p_empty_nd, "center": p_center}
+              "empty_nd": p_empty_nd, "center": p_center, "np_index": p_np_index}
 
 
 def search(out, tier):
@@ -429,6 +451,9 @@ def search(out, tier):
             pairs = rng.sample(pairs, 4000)
         for a, b in pairs:
             run("intersect3", a, b, n)
+    for n_ in (1, 3, 6):
+        for i_ in range(-n_, n_):
+            run("np_index", i_, n_)
     # centre queries: absolute, from-the-end and open bounds, integer indices, N-D tuples
     cvals = [None, 0, 1, 2, 3, -1, -2, -4]
     csl = [slice(a, b) for a in cvals for b in cvals] + [0, 1, 2, -1, -3]
